@@ -94,6 +94,7 @@ func cachingHandler(router proxy.Router, logger *apexlog.Logger, conf *config.Co
 		cachingFunc = func(w *http.ResponseWriter, r *http.Request, overrideURL *url.URL, alwaysInclude *http.Header, frf *proxy.RoutingFlavors, skipRevalidate bool) {
 			logctx := logger.WithFields(apexlog.Fields{"url": r.URL, "func": "server.cachingHandler"})
 			rf := router.GetRoutingFlavors(r)
+			verifPointS("srv.after-flavors", r.URL.Path)
 			r = preprocessHeaders(r, rf.RequestHeaders)
 			shouldSkip := shouldSkipCaching(r.Header, rf)
 			if len(rf.CacheId) == 0 && frf != nil {
@@ -103,6 +104,7 @@ func cachingHandler(router proxy.Router, logger *apexlog.Logger, conf *config.Co
 				alwaysInclude = &http.Header{}
 			}
 			if len(rf.CacheId) == 0 || !cache.HasStorage(rf.CacheId) || (r.Method != "GET" && r.Method != "HEAD") {
+				verifPointS("srv.before-route", r.URL.Path)
 				reqres, err := router.RouteRequest(ctx, r, overrideURL, rf.Rule)
 				if err != nil {
 					writeError(*w, err)
@@ -168,6 +170,7 @@ func cachingHandler(router proxy.Router, logger *apexlog.Logger, conf *config.Co
 				if cr.WaitChan != nil {
 					ts := []int{30, 10, 5}
 					for i := 0; i < len(ts); i++ {
+						verifPointS("srv.wait", r.URL.Path)
 						select {
 						case waitedKeyInfo := <-*cr.WaitChan:
 							cr, _, err = cache.Get(ctx, rf.CacheId, rf.ForceRevalidate, waitedKeyInfo.CanUseStale, []caching.Key{waitedKeyInfo.Key}, *w, logger)
@@ -250,6 +253,7 @@ func cachingHandler(router proxy.Router, logger *apexlog.Logger, conf *config.Co
 					(*w).WriteHeader(cr.Metadata.Status)
 				}
 
+				verifPointS("srv.before-sendbody", r.URL.Path)
 				fatal, err := sendBody(*w, cr.Reader, cr.Metadata.Size, rRange, logctx)
 				if err != nil {
 					if fatal {
@@ -259,6 +263,7 @@ func cachingHandler(router proxy.Router, logger *apexlog.Logger, conf *config.Co
 				return
 			case caching.NotFoundReader, caching.RevalidatingReader:
 				if cr.Reader == nil && shouldSkipIfNotCached {
+					verifPointS("srv.before-route", r.URL.Path)
 					reqres, err := router.RouteRequest(ctx, r, overrideURL, rf.Rule)
 					if err != nil {
 						writeError(*w, err)
@@ -327,6 +332,7 @@ func cachingHandler(router proxy.Router, logger *apexlog.Logger, conf *config.Co
 					r.Header.Del("if-none-match")
 					r.Header.Del("if-modified-since")
 				}
+				verifPointS("srv.before-route", r.URL.Path)
 				reqres, err := router.RouteRequest(ctx, r, overrideURL, rf.Rule)
 				if err != nil {
 					writeError(*w, err)
@@ -763,6 +769,7 @@ func makeCachingWriteBody(rr *requestRange) BodyWriter {
 			return err
 		}
 
+		verifPointS("srv.before-sendbody", "")
 		_, err = sendBody(crw.GetClientWriter(), fd, fi.Size(), rr, logctx)
 		if err != nil {
 			return err
